@@ -175,13 +175,13 @@ func doHistory(c *hx.Ctx, in Input, kind string, nperm int) {
 	desc := map[string]interface{}{"ops": in.Ops, "base": in.Base}
 	switch kind {
 	case caseHist:
-		c.Case(fmt.Sprintf("CHist %s %s %s", coqOps(in.Ops), coqKvs(ws), hx.CoqBytes(hash)), desc)
+		c.Case(fmt.Sprintf("CHist %s %s %s", coqOps(in.Ops), coqKvs(ws), coqB(hash)), desc)
 	case caseSteps:
 		s := make([]string, len(perStep))
 		for i, l := range perStep {
 			s[i] = coqKvs(l)
 		}
-		c.Case(fmt.Sprintf("CSteps %s %s %s", coqOps(in.Ops), hx.CoqList(s), hx.CoqBytes(hash)), desc)
+		c.Case(fmt.Sprintf("CSteps %s %s %s", coqOps(in.Ops), hx.CoqList(s), coqB(hash)), desc)
 	default:
 		c.Case(fmt.Sprintf("CSet %s %s", coqOps(in.Ops), coqKvs(ws)), desc)
 	}
